@@ -5534,6 +5534,8 @@ def symlink_to_bytes(symlink_target):
         else:
             symlink_data.extend(b'\x05')
             ostaname = _ostaunicode(comp)
+            if len(ostaname) > 255:
+                raise pycdlibexception.PyCdlibInvalidInput('A component of a UDF symlink target is too long for its one-byte length')
             symlink_data.append(len(ostaname))
             symlink_data.extend(b'\x00\x00')
             symlink_data.extend(ostaname)
